@@ -257,6 +257,9 @@ func principalOps(lit *ast.FuncLit) map[string][]ast.Node {
 					ops[p] = append(ops[p], x)
 				}
 			case *ast.UnaryExpr:
+				if _, isLit := unparen(x.X).(*ast.BasicLit); isLit {
+					return true // a signed constant, not an operation on an operand
+				}
 				if x.Op == token.SUB || x.Op == token.XOR || x.Op == token.NOT {
 					ops["unary"+x.Op.String()] = append(ops["unary"+x.Op.String()], x)
 				}
